@@ -230,42 +230,35 @@ theorem addTarget_inv {ms : Option Nat} {c : ChanState} {qs : List Nat} (hi : Ch
       apply lift_good hi1
       intro c' h
       cases hl : c1.last with
-      | error e => simp [hl, bind, Except.bind] at h
+      | error e => simp [hl] at h
       | ok last =>
-        simp only [hl, bind, Except.bind] at h
+        simp only [hl] at h
         obtain ⟨rest, hr⟩ := last_ok hl
         have hinv := hi1.2; rw [hr] at hinv
         have hhead := InvR_head hinv
-        generalize hδ : (if c1.cfg.fixedRetarget ≠ 0 then
-            max (min (max ((c1.cfg.minRetarget : Int) - (last.tf - c1.lastTarget)) 0) c1.cfg.minRetarget)
-              (c1.cfg.fixedRetarget : Int)
-          else min (max ((c1.cfg.minRetarget : Int) - (last.tf - c1.lastTarget)) 0) c1.cfg.minRetarget) = δ at h
-        by_cases hz : δ ≠ 0
-        · simp only [hz, if_true, ne_eq, not_false_eq_true] at h
-          cases ha : c1.adjust δ.toNat with
-          | error e => simp [ha] at h
-          | ok d =>
-            simp only [ha] at h
-            cases hc : checkDuration ms (last.tf + (d : Int)) with
-            | error e => simp [hc] at h
-            | ok u =>
-              simp only [hc] at h
-              injection h with h; subst h
-              have hd := adjustDuration_ok hi1.1 ha
-              refine ⟨ChanInv_snoc hi1 hl ⟨rfl, by simp; omega, ?_, checkDuration_bound hc, ?_⟩, Ext_snoc _ _⟩
-              · exact Int.dvd_add hhead.1 (Int.ofNat_dvd.mpr hd.2.2.1)
-              · right; simp; omega
-        · have hz' : δ = 0 := by omega
-          simp only [hz', ne_eq, not_true_eq_false, if_false, pure, Except.pure] at h
-          simp only [Int.ofNat_zero, Int.add_zero] at h
-          cases hc : checkDuration ms last.tf with
-          | error e => simp [hc] at h
-          | ok u =>
-            simp only [hc] at h
+        -- the adjusted retarget time: 0, or a valid duration
+        have hdelta : ∀ delta : Nat,
+            (if retargetDelta c1 last.tf ≠ 0 then c1.adjust (retargetDelta c1 last.tf).toNat else .ok 0)
+              = .ok delta → delta = 0 ∨ (c1.cfg.minDur ≤ delta ∧ c1.cfg.clock ∣ delta) := by
+          intro delta hd
+          split at hd
+          · have := adjustDuration_ok hi1.1 hd
+            exact .inr ⟨this.1, this.2.2.1⟩
+          · injection hd with hd; exact .inl hd.symm
+        split at h
+        · cases h
+        · rename_i delta hdl
+          split at h
+          · cases h
+          · rename_i u hc
             injection h with h; subst h
-            refine ⟨ChanInv_snoc hi1 hl ⟨rfl, by simp, ?_, checkDuration_bound hc, ?_⟩, Ext_snoc _ _⟩
-            · simpa using hhead.1
-            · left; simp
+            refine ⟨ChanInv_snoc hi1 hl ⟨rfl, by simp; omega, ?_, checkDuration_bound hc, ?_⟩, Ext_snoc _ _⟩
+            · rcases hdelta delta hdl with h0 | ⟨_, h2⟩
+              · subst h0; simpa using hhead.1
+              · exact Int.dvd_add hhead.1 (Int.ofNat_dvd.mpr h2)
+            · rcases hdelta delta hdl with h0 | ⟨h1, _⟩
+              · left; subst h0; simp
+              · right; simp; omega
 
 end Pulser
 
@@ -302,7 +295,20 @@ theorem findAddDelay_ge (others : List ChanState) (t : List Nat) (w : Bool) (t0 
     simp only [List.foldl_cons]
     exact Int.le_trans (findAddDelayChan_ge _ _ _ _ _ _) (ih _)
 
-/-- What `make_next_pulse_slot` returns. -/
+theorem curMaxOf_ge (others : List ChanState) (last : Slot) (barriers : List Int) (proto : Protocol) :
+    last.tf ≤ curMaxOf others last barriers proto ∧
+    maxList last.tf barriers ≤ curMaxOf others last barriers proto := by
+  unfold curMaxOf
+  have h1 := maxList_ge last.tf barriers
+  split
+  · have h2 := findAddDelay_ge others last.targets (proto == .waitForAll) (maxList last.tf barriers)
+    exact ⟨by omega, h2⟩
+  · exact ⟨h1, Int.le_refl _⟩
+
+/-- What `make_next_pulse_slot` returns: the pulse slot starts `delay` after the channel's
+end, where `delay` is `0` when nothing has to be waited for and otherwise the *adjusted*
+(minimum duration, clock) value of the required wait
+`max (current_max_t − t0) phase_jump_buffer`. -/
 theorem makeNextPulseSlot_spec {ms : Option Nat} {c : ChanState} {others : List ChanState}
     {p : PulseRec} {barriers : List Int} {proto : Protocol} {drift : Option Drift} {blk : Bool}
     {slot last : Slot} (hc : 0 < c.cfg.clock) (hl : c.last = .ok last)
@@ -311,57 +317,41 @@ theorem makeNextPulseSlot_spec {ms : Option Nat} {c : ChanState} {others : List 
       slot.ti = last.tf + delay ∧ slot.tf = slot.ti + p.dur ∧ slot.targets = last.targets ∧
       slot.kind = .pulse p' ∧ (p'.dur = p.dur ∧ p'.ref = p.ref ∧ p'.sum = p.sum) ∧
       (delay = 0 ∨ (c.cfg.minDur ≤ delay ∧ c.cfg.clock ∣ delay)) ∧
-      (blk = true → ∀ m, ms = some m → slot.tf ≤ (m : Int)) := by
+      (blk = true → ∀ m, ms = some m → slot.tf ≤ (m : Int)) ∧
+      -- the required wait, and how `delay` relates to it
+      (let need := max (curMaxOf others last barriers proto - last.tf)
+          (phaseJumpBuffer c last.tf
+            (fmtPhase (correctedPhase p drift (curMaxOf others last barriers proto))) proto)
+       (need ≤ 0 → delay = 0) ∧ (0 < need → c.adjust need.toNat = .ok delay) ∧ need ≤ delay) := by
   unfold makeNextPulseSlot at h
-  simp only [hl, bind, Except.bind] at h
-  -- name the pair (curMax, buffer)
-  generalize hcb : (if proto ≠ Protocol.noDelay then _ else _ : Int × Int) = cb at h
-  have hge : last.tf ≤ cb.1 := by
-    rw [← hcb]
-    split
-    · have h1 := maxList_ge last.tf barriers
-      have h2 := findAddDelay_ge others last.targets (proto == .waitForAll) (maxList last.tf barriers)
-      repeat' split
-      all_goals (simp; omega)
-    · exact maxList_ge _ _
-  obtain ⟨cm, bf⟩ := cb
-  simp only at h hge
-  by_cases hpos : max (cm - last.tf) bf > 0
-  · simp only [hpos, if_true] at h
-    cases ha : c.adjust (max (cm - last.tf) bf).toNat with
-    | error e => simp [ha] at h
-    | ok d =>
-      simp only [ha, pure, Except.pure] at h
-      have hd := adjustDuration_ok hc ha
-      refine ⟨d, ?_⟩
-      split at h
-      · cases hcd : checkDuration ms (last.tf + (d : Int) + (p.dur : Int)) with
-        | error e => simp [hcd] at h
-        | ok u =>
-          simp only [hcd] at h
-          injection h with h; subst h
-          exact ⟨_, rfl, rfl, rfl, rfl, by cases drift <;> exact ⟨rfl, rfl, rfl⟩,
-            .inr ⟨hd.1, hd.2.2.1⟩, fun _ => checkDuration_bound hcd⟩
-      · rename_i hblk
-        injection h with h; subst h
-        exact ⟨_, rfl, rfl, rfl, rfl, by cases drift <;> exact ⟨rfl, rfl, rfl⟩,
-          .inr ⟨hd.1, hd.2.2.1⟩, fun hb => absurd hb hblk⟩
-  · simp only [hpos, if_false, pure, Except.pure] at h
-    have hz : max (cm - last.tf) bf = 0 := by omega
-    simp only [hz, Int.add_zero] at h
-    refine ⟨0, ?_⟩
-    split at h
-    · cases hcd : checkDuration ms (last.tf + (p.dur : Int)) with
-      | error e => simp [hcd] at h
-      | ok u =>
-        simp only [hcd] at h
-        injection h with h; subst h
-        exact ⟨_, by simp, rfl, rfl, rfl, by cases drift <;> exact ⟨rfl, rfl, rfl⟩, .inl rfl,
-          fun _ => checkDuration_bound hcd⟩
-    · rename_i hblk
+  simp only [hl] at h
+  generalize hneed : max (curMaxOf others last barriers proto - last.tf)
+      (phaseJumpBuffer c last.tf
+        (fmtPhase (correctedPhase p drift (curMaxOf others last barriers proto))) proto) = need at h ⊢
+  cases hdl : (if need > 0 then c.adjust need.toNat else .ok 0) with
+  | error e => simp [hdl] at h
+  | ok delay =>
+    simp only [hdl] at h
+    have hdelay : (delay = 0 ∨ (c.cfg.minDur ≤ delay ∧ c.cfg.clock ∣ delay)) ∧
+        (need ≤ 0 → delay = 0) ∧ (0 < need → c.adjust need.toNat = .ok delay) ∧ need ≤ delay := by
+      by_cases hpos : need > 0
+      · rw [if_pos hpos] at hdl
+        have hd := adjustDuration_ok hc hdl
+        exact ⟨.inr ⟨hd.1, hd.2.2.1⟩, fun hn => by omega, fun _ => hdl, by omega⟩
+      · rw [if_neg hpos] at hdl
+        injection hdl with hdl
+        exact ⟨.inl hdl.symm, fun _ => hdl.symm, fun hn => absurd hn hpos, by omega⟩
+    cases hcd : (if blk = true then checkDuration ms (last.tf + (delay : Int) + (p.dur : Int))
+        else .ok ()) with
+    | error e => simp [hcd] at h
+    | ok u =>
+      simp only [hcd] at h
       injection h with h; subst h
-      exact ⟨_, by simp, rfl, rfl, rfl, by cases drift <;> exact ⟨rfl, rfl, rfl⟩, .inl rfl,
-        fun hb => absurd hb hblk⟩
+      refine ⟨delay, _, rfl, rfl, rfl, rfl, by cases drift <;> exact ⟨rfl, rfl, rfl⟩, hdelay.1, ?_,
+        hdelay.2⟩
+      intro hb
+      rw [if_pos hb] at hcd
+      exact checkDuration_bound hcd
 
 end Pulser
 
@@ -413,7 +403,7 @@ theorem addPulse_inv {ms : Option Nat} {c c' : ChanState} {others : List ChanSta
     | error e => simp [hl, hm, bind, Except.bind] at h
     | ok slot =>
       simp only [hl, hm, bind, Except.bind] at h
-      obtain ⟨delay, p', h1, h2, h3, h4, ⟨h5, h5r, h5s⟩, h6, h7⟩ := makeNextPulseSlot_spec hi.1 hl hm
+      obtain ⟨delay, p', h1, h2, h3, h4, ⟨h5, h5r, h5s⟩, h6, h7, _⟩ := makeNextPulseSlot_spec hi.1 hl hm
       have h7 := h7 rfl
       obtain ⟨rest, hr⟩ := last_ok hl
       have hinv := hi.2; rw [hr] at hinv
